@@ -29,7 +29,48 @@ def c_set(s):
         cL([cP(cN(a), cN(b)) for a, b in s["remotes"]]))
 
 
+def c_osphase(p):
+    if p["kind"] < 0 or p["name"] < 0 or p["class"] > 2:
+        raise pl.Unrepresentable("ObjectSetPhase outside the model")
+    return "(Build_osphase %s %d %s %s %s %s %s %d %d %s %s %s %s %s %s)" % (
+        pl.c_oid(p), p["rv"], cZ(p["gen"]), cL([pl.c_ref(r) for r in p["owners"]]), cB(p["deleting"]), cB(p["fin"]),
+        cB(p["orphan"]), p["pkg"], p["class"], cB(p["paused"]), cZ(p["revision"]), cL([cN(n) for n in p["prev"]]),
+        cL([pl.c_pobj(o) for o in p["objects"]]), cL([c_cond(c) for c in p["conds"]]), cL([pl.c_key(k) for k in p["ctrlof"]]))
+
+
+def c_optphase(p):
+    return cO(None if p is None else c_osphase(p))
+
+
+def c_pev(e):
+    op, n = e["op"], e["name"]
+    if n < 0:
+        raise pl.Unrepresentable("phase object name outside the model")
+    if op == "get":
+        return "(PGet %d %s)" % (n, c_optphase(e.get("obj")))
+    if op == "create":
+        return "(PCreate %d %s)" % (n, c_optphase(e.get("obj")))
+    if op == "pause":
+        return "(PPause %d %s %s)" % (n, cB(e.get("paused", False)), c_optphase(e.get("obj")))
+    if op == "delete":
+        return "(PDelete %d %s)" % (n, {"ok": "DOk", "notfound": "DNotFound", "conflict": "DConflict"}[e["res"]])
+    if op == "strip":
+        return "(PStrip %d %s)" % (n, cB(e["ok"]))
+    if op == "finalizer":
+        return "(PFinalizer %d %s %s)" % (n, cB(e.get("added", False)), cB(e["ok"]))
+    if op == "status":
+        return "(PStatus %d %s %s %s)" % (n, cL([c_cond(c) for c in e.get("conds") or []]),
+                                         cL([pl.c_key(k) for k in e.get("ctrlof") or []]), cB(e["ok"]))
+    raise pl.Unrepresentable("request on a phase object outside the model's event language: %s" % op)
+
+
+def c_nss(nss):
+    return cL([cP(cN(a), cB(b == 1)) for a, b in nss])
+
+
 def c_sev(e):
+    if e["kind"] == "phase":
+        return "(SPhase %s)" % c_pev(e["phase"])
     if e["kind"] == "member":
         return "(SMember %s)" % pl.c_event(e["member"])
     if e["kind"] == "finalizer":
@@ -50,10 +91,12 @@ RES = {"nothing": "SNothing", "done": "(SDone false)", "requeue": "(SDone true)"
 
 def c_case(sc, obs):
     t = sc["target"]
-    return "(Build_scase %s %s %d %d %s %d %d %d %s %s %s %s %d %d)" % (
+    return "(Build_scase %s %s %d %d %s %s %s %d %d %d %s %s %s %s %s %d %d)" % (
         cB(sc["force"]), pl.c_store(sc["store"]), sc["next_rv"], sc["next_uid"], cL([c_set(s) for s in sc["sets"]]),
+        cL([c_osphase(p) for p in sc.get("phases", [])]), c_nss(sc.get("nss", [])),
         t["kind"], t["ns"], t["name"], RES[obs["res"]], cL([c_sev(e) for e in obs["events"]]),
-        pl.c_store(obs["post"]), cL([c_set(s) for s in obs["sets"]]), obs["next_rv"], obs["next_uid"])
+        pl.c_store(obs["post"]), cL([c_set(s) for s in obs["sets"]]), cL([c_osphase(p) for p in obs.get("phases", [])]),
+        obs["next_rv"], obs["next_uid"])
 
 
 def mk_set(kind, ns, name, uid, rv=5, **kw):
